@@ -16,15 +16,18 @@ ASSUME = [
 ]
 
 
-def jobs(tier, kinds=("lang",), n_quick=5, n_thorough=7, algos=("lane", "lr1", "lalr")):
+def jobs(tier, kinds=("lang",), n_quick=5, n_thorough=7, algos=("lane", "lr1", "lalr"), stretch=True):
+    """stretch: raise N to the grammar's min_n (shortest interesting sentences); otherwise such grammars are skipped."""
     n = n_quick if tier == "quick" else n_thorough
     out = []
     for g in base.base_grammars():
+        if not stretch and getattr(g, "min_n", 0) > n:
+            continue
         for algo in algos:
             if algo == "lalr" and g.not_lalr:
                 continue
             for s in g.pub_nts():
-                out.append(e1.Job(g, frozenset(), algo, s, n, list(kinds)))
+                out.append(e1.Job(g, frozenset(), algo, s, max(n, getattr(g, "min_n", 0)), list(kinds)))
     return out
 
 
